@@ -754,3 +754,7 @@ func (p *Prog) DerivesAnyIP(v ssa.Value, pred ValPred) bool {
 	}
 	return walk(v, 0)
 }
+
+
+// EdgeFacts returns the boolean facts that hold when control flows from b to su.
+func EdgeFacts(b, su *ssa.BasicBlock) []BoolFact { return edgeFacts(b, su) }
